@@ -52,6 +52,7 @@ func main() {
 	onlyRule := flag.String("rule", "", "internal: restrict output to one rule")
 	jsonOut := flag.Bool("json", false, "internal: print obligations as JSON")
 	manifest := flag.Bool("manifest", false, "print MANIFEST.json for the registered properties")
+	recipes := flag.Bool("recipes", false, "debug: print everything the spec tables are compared with")
 	flag.Parse()
 	if *manifest {
 		printManifest()
@@ -78,6 +79,15 @@ func main() {
 		seed, _ = strconv.Atoi(s)
 	}
 
+	if *recipes {
+		p, err := Load(*repo, quickConfigs[0], nil)
+		if err != nil {
+			fmt.Fprintln(os.Stderr, err)
+			os.Exit(2)
+		}
+		dumpRecipes(p)
+		return
+	}
 	if *dump != "" {
 		p, err := Load(*repo, quickConfigs[0], nil)
 		if err != nil {
